@@ -156,12 +156,12 @@ def mirror(cl, layV, layH):
             cl.eq(f"mirror: {s.name}.branch[{i}].anchor_right'", bh.anchor_right.y, bv.anchor_right.x)
 
 
-def same(cl, lay1, lay2):
+def same(cl, lay1, lay2, what="determinism"):
     f1, f2 = flat(lay1), flat(lay2)
-    cl.fact("determinism: same structure", [a[0] for a in f1] == [a[0] for a in f2])
+    cl.fact(f"{what}: same structure", [a[0] for a in f1] == [a[0] for a in f2])
     for (n, x1, y1), (_, x2, y2) in zip(f1, f2):
-        cl.eq(f"determinism: {n}.x", x1, x2)
-        cl.eq(f"determinism: {n}.y", y1, y2)
+        cl.eq(f"{what}: {n}.x", x1, x2)
+        cl.eq(f"{what}: {n}.y", y1, y2)
 
 
 def all_clauses(ctx, case, m, syn, ordered, sizes, per_kind, params, prior=None):
@@ -171,8 +171,8 @@ def all_clauses(ctx, case, m, syn, ordered, sizes, per_kind, params, prior=None)
     rec, _, _ = RC.build_rec(case, m, syn, ordered)
     RC.draw_prior(case, rec.input, prior)
 
-    def lay(orient, swap):
-        return RC.run_layout(rec, orient, sizes, per_kind, params, swap=swap, render=True)[0]
+    def lay(orient, swap, split=False):
+        return RC.run_layout(rec, orient, sizes, per_kind, params, swap=swap, render=True, split=split)[0]
 
     layV = lay(Orientation.VERTICAL, False)
     layH = lay(Orientation.HORIZONTAL, True)
@@ -181,6 +181,9 @@ def all_clauses(ctx, case, m, syn, ordered, sizes, per_kind, params, prior=None)
     geometry(cl, layH, "horizontal")
     mirror(cl, layV, layH)
     same(cl, layV, layV2)
+    # node sizes reach the layout as (width, height, depth) boxes: only the overall size may matter, in both orientations
+    same(cl, layH, lay(Orientation.HORIZONTAL, True, split=True), "depth")
+    same(cl, layV, lay(Orientation.VERTICAL, False, split=True), "depth")
     return cl
 
 
@@ -304,10 +307,10 @@ def main(argv=None):
         items += rec_items(rng, d, 6 if q else 30, 0, False, True, 4000 if q else 20000, 200.0 if q else 900.0)
     for _ in range(n4):
         d = SRinput(rng, 4, rng.randint(2, 4))
-        items += rec_items(rng, d, 3 if q else 12, 1, False, (not q) and rng.random() < 0.5, 6000 if q else 30000, 60.0 if q else 1200.0)
+        items += rec_items(rng, d, 3 if q else 12, 1, False, (not q) and rng.random() < 0.5, 6000 if q else 30000, 150.0 if q else 1500.0)
     for _ in range(n5):
         d = SRinput(rng, rng.randint(5, 6), rng.randint(3, 5))
-        items += rec_items(rng, d, 2 if q else 6, 2, True, True, 6000 if q else 30000, 60.0 if q else 1200.0)
+        items += rec_items(rng, d, 2 if q else 6, 2, True, True, 6000 if q else 30000, 150.0 if q else 1500.0)
     order = sorted(range(len(items)), key=lambda i: -(items[i]["section"] * 100 + len(str(items[i]["desc"]["ot"]))))
     res, sk = R.run_sharded(worker, [items[i] for i in order], 140 if q else 3000)
     names = ["2-3 object leaves: one (w,h) per node + drawing parameters symbolic", "4 object leaves: one (w,h) per node symbolic",
